@@ -260,6 +260,8 @@ def gen_scalar_assertions(rng):
         d["enum"] = rng.sample(["x", "y", 1, 2, 7, None, True, "zz"], rng.choice([1, 2, 3]))
     elif k < 0.85:
         d["const"] = rng.choice(["x", 1, 7, None, False])
+        if rng.random() < 0.35:       # const next to enum in one sub-schema
+            d["enum"] = rng.sample(["x", "y", 1, 2, 7, None, False, "zz"], rng.choice([1, 2, 3]))
     return d
 
 
@@ -412,6 +414,39 @@ def gen_negated_recursion(rng):
     return doc
 
 
+def gen_self_conjunction(rng):
+    """a recursive reference that meets itself: the same position (items, one property, a prefix item) is constrained
+    by the referring schema and by its target, or by two conjuncts that both recurse"""
+    r = {"$ref": "#"}
+    pos = rng.choice(["items", "prop", "prefix"])
+
+    def at(x):
+        if pos == "items":
+            return {"items": x}
+        if pos == "prop":
+            return {"properties": {"x": x}}
+        return {"prefixItems": [x], "minItems": 0}
+    m = rng.random()
+    if m < 0.3:
+        doc = {"allOf": [at(dict(r)), at(dict(r))]}
+    elif m < 0.55:
+        inner = at(dict(r))
+        inner["$ref"] = "#"
+        doc = at(inner)
+    elif m < 0.8:
+        doc = at({"allOf": [dict(r), at(dict(r))]})
+    else:
+        doc = at({"$ref": "#/$defs/D0"})
+        d0 = at({"$ref": "#"})
+        d0["$ref"] = "#/$defs/D0" if rng.random() < 0.3 else "#"
+        doc["$defs"] = {"D0": d0}
+    if rng.random() < 0.5:
+        doc.update(gen_scalar_assertions(rng))
+        doc.pop("enum", None)
+        doc.pop("const", None)
+    return doc
+
+
 def _scalar_for(rng, group):
     d = {}
     if group == "number":
@@ -429,6 +464,8 @@ def _scalar_for(rng, group):
             d["enum"] = rng.sample(["x", "y", 1, 2, 7, None, True, False, 0, "zz"], rng.choice([1, 2, 3, 4]))
         else:
             d["const"] = rng.choice(["x", 1, 7, None, False, 0])
+            if rng.random() < 0.4:
+                d["enum"] = rng.sample(["x", "y", 1, 2, 7, None, True, False, 0, "zz"], rng.choice([1, 2, 3]))
         if rng.random() < 0.3:
             d["type"] = rng.choice(TYPES)
     else:
